@@ -29,8 +29,8 @@ pub struct Env {
     pub known: BTreeSet<String>,
     pub quantity_dims: BTreeMap<String, Dims>,
     pub by_dims: BTreeMap<Dims, Vec<String>>,
-    /// the category each name is defined in, read from the definitions file itself (a base unit's
-    /// long name belongs where the base unit is defined)
+    /// the display name of the category each name is defined in, read from the definitions file
+    /// itself (a base unit's long name belongs where the base unit is defined)
     pub file_category: BTreeMap<String, BTreeSet<String>>,
     /// names the definitions file defines as nothing but another name (`deka- deca`, `metre meter`):
     /// read from the file, not from what the loader recorded about them
@@ -51,6 +51,7 @@ pub fn mk_env(known: BTreeSet<String>) -> Env {
         by_dims.entry(rinkx::dims_of(v)).or_default().push(n.clone());
     }
     let mut file_category: BTreeMap<String, BTreeSet<String>> = BTreeMap::new();
+    let mut declared: BTreeMap<String, String> = BTreeMap::new();
     let mut file_alias: BTreeSet<String> = BTreeSet::new();
     let mut file_names: BTreeSet<String> = BTreeSet::new();
     {
@@ -69,7 +70,13 @@ pub fn mk_env(known: BTreeSet<String>) -> Env {
                 }
                 _ => {}
             }
-            if let Some(c) = &e.category {
+            if let rink_core::ast::Def::Category { display_name } = &*e.def {
+                declared.insert(e.name.clone(), display_name.clone());
+            }
+            // the category a definition is declared in is the one named by the `!category` line
+            // in force where it stands, under the display name that line gives it
+            let shown = e.category.as_ref().map(|c| declared.get(c).cloned().unwrap_or_else(|| c.clone()));
+            if let Some(c) = &shown {
                 match &*e.def {
                     rink_core::ast::Def::Unit { .. } | rink_core::ast::Def::Substance { .. } => {
                         file_category.entry(e.name.clone()).or_default().insert(c.clone());
@@ -181,7 +188,7 @@ pub fn check(env: &Env, c: &Case, st: &mut Stats) -> CaseResult {
                         // grouped under its own category
                         // a name defined twice (a long prefix and a unit, say) may be under either category
                         let expect_cats: Vec<Option<String>> = match env.file_category.get(n) {
-                            Some(ids) => ids.iter().map(|id| r.category_names.get(id).cloned()).collect(),
+                            Some(names) => names.iter().map(|n| Some(n.clone())).collect(),
                             None => vec![None],
                         };
                         let expect_cat = expect_cats.first().cloned().flatten();
